@@ -44,9 +44,10 @@ fn imgs() -> &'static Imgs {
         hkb: image(&handler(H_KB, KB_EXTRA)), ht: image(&handler(H_T, TRAP_EXTRA)),
     })
 }
-fn machine(prog: usize) -> Machine {
+fn machine(prog: usize, ign: bool) -> Machine {
     let im = imgs();
     let mut m = Machine::user();
+    m.ignore_priv = ign;
     m.regs = [1, 2, 3, 4, 5, 6, 0xFD80, 7];
     m.kb = Some(vec![]);
     m.pokes.extend(im.progs[prog].iter().copied());
@@ -67,11 +68,11 @@ enum Variant {
 }
 struct Final { finished: bool, regs: Vec<u16>, cc: u16, user_mem: Vec<u16>, display: Vec<u8>, polls: u64, counters: [u16; 4] }
 
-fn run(prog: usize, v: &Variant) -> Result<Final, (String, String)> {
-    let mut m = machine(prog);
+fn run(prog: usize, v: &Variant, ign: bool) -> Result<Final, (String, String)> {
+    let mut m = machine(prog, ign);
     if matches!(v, Variant::Keyboard { .. }) { m.kb_ie = true; }
     let mut p = build(&m);
-    let what = format!("program {prog} {v:?}");
+    let what = format!("program {prog} {v:?}{}", if ign { " ignore_privilege=true" } else { "" });
     let mut raised = [0u64; 2];
     let mut timer_model: Option<(u32, u32)> = None; // (n, time)
     match v {
@@ -89,7 +90,7 @@ fn run(prog: usize, v: &Variant) -> Result<Final, (String, String)> {
     let mut polls = 0u64; let mut taken = 0u64; let mut finished = false;
     for _ in 0..2000 {
         if let Variant::Keyboard { appends } = v {
-            for (k, _) in appends.iter().enumerate().filter(|(_, a)| **a == polls) { let b = b'A' + k as u8; p.kb.get_buffer().write().unwrap().push_back(b); p.rf.kb_queue.push_back(b); }
+            for (k, _) in appends.iter().enumerate().filter(|(_, a)| **a == polls) { let b = b'A' + k as u8; p.kb.get_buffer().write().unwrap_or_else(|e| e.into_inner()).push_back(b); p.rf.kb_queue.push_back(b); }
         }
         if let Some((n, time)) = &mut timer_model {
             // RefTimer: countdown model of an exact count n
@@ -115,21 +116,25 @@ fn run(prog: usize, v: &Variant) -> Result<Final, (String, String)> {
         let served = appends.iter().filter(|a| **a < polls).count() as u16;
         if counters[2] != served { return Err(("keyboard-interrupts".into(), format!("{what}: keyboard handler ran {} times for {served} bytes typed", counters[2]))); }
     }
-    let display = { let g = p.disp.get_buffer().read().unwrap(); g.clone() };
+    let display = { let g = p.disp.get_buffer().read().unwrap_or_else(|e| e.into_inner()); g.clone() };
     Ok(Final { finished, regs: (0..8).map(|i| p.sim.reg_file[reg(i)].get()).collect(), cc: p.sim.psr().get() & 7, user_mem: (0x3000..0xFE00u16).map(|a| p.sim.mem[a].get()).collect(), display, polls, counters })
 }
 
-fn baselines() -> &'static Vec<Final> {
-    static B: OnceLock<Vec<Final>> = OnceLock::new();
-    B.get_or_init(|| (0..PROGRAMS.len()).map(|i| run(i, &Variant::Devices { pa: 4, pb: 7, events: vec![] }).map_err(|e| e.1).expect("baseline run")).collect())
+/// uninterrupted runs (default flags, then ignore_privilege); a run that already disagrees with the reference is itself a violation, reported by the callers
+fn baselines() -> &'static Vec<Result<Final, (String, String)>> {
+    static B: OnceLock<Vec<Result<Final, (String, String)>>> = OnceLock::new();
+    B.get_or_init(|| (0..2 * PROGRAMS.len()).map(|i| run(i % PROGRAMS.len(), &Variant::Devices { pa: 4, pb: 7, events: vec![] }, i >= PROGRAMS.len())).collect())
 }
-fn check(prog: usize, v: &Variant) -> Result<(u64, bool), (String, String)> {
-    let f = run(prog, v)?;
+fn base_polls(prog: usize) -> u64 { [prog, prog + PROGRAMS.len()].iter().filter_map(|i| baselines()[*i].as_ref().ok().map(|b| b.polls)).max().unwrap_or(0) }
+fn check(prog: usize, v: &Variant) -> Result<(u64, bool), (String, String)> { check_f(prog, v, false) }
+/// `ign`: the same schedule with ignore_privilege set (the program stays in user mode; entry and return must still use the supervisor stack)
+fn check_f(prog: usize, v: &Variant, ign: bool) -> Result<(u64, bool), (String, String)> {
+    let f = run(prog, v, ign)?;
     // a timer whose period divides the handler's length starves the program forever (every return is interrupted at once):
     // legitimate behaviour; such runs end at the horizon and only their lock-step part is judged
     if !f.finished { return Ok((f.polls, false)); }
-    let b = &baselines()[prog];
-    let what = format!("program {prog} {v:?}");
+    let b = match &baselines()[prog + if ign { PROGRAMS.len() } else { 0 }] { Ok(b) => b, Err(e) => return Err(e.clone()) };
+    let what = format!("program {prog} {v:?}{}", if ign { " ignore_privilege=true" } else { "" });
     if f.regs != b.regs { return Err(("transparency:registers".into(), format!("{what}: final registers {:x?}, uninterrupted run {:x?}", f.regs, b.regs))); }
     if f.cc != b.cc { return Err(("transparency:condition-codes".into(), format!("{what}: final CC {:03b}, uninterrupted {:03b}", f.cc, b.cc))); }
     if f.display != b.display { return Err(("transparency:output".into(), format!("{what}: output {:x?}, uninterrupted {:x?}", f.display, b.display))); }
@@ -147,24 +152,28 @@ fn schedule(mut s: u64, k: usize, slots: u64) -> Option<Vec<(u64, u8)>> {
 }
 
 pub fn run_engine(ctx: &Ctx) -> Report {
-    let mut rep = Report::new("5 user programs (arithmetic loop branching on every CC; LD/ST/LDR/STR/LDI/STI; nested JSR with a stack through R6; PUTS and OUT so that requests land inside OS code; straight line) ending in HALT; two harness devices (vectors x90/x91, level-triggered until taken; the first one's, the keyboard's and the timer's handlers call a service routine through TRAP x40, so requests also arrive while an ISR is inside a trap routine) with priority pairs from {1,4,7}^2 (unequal); schedules: every placement of 0,1,2 (thorough 3 on the shorter programs) request-raise events over (poll index x device) up to the program's length; plus the real keyboard interrupt (IE set, bytes typed by 'another thread' before every pair of polls) and the real TimerDevice with exact n=1..baseline+1. Every run is in lock-step with RefLC3 (gating: taken iff priority > PSR priority and highest wins; entry: supervisor bit, priority, PC = mem[x100+v], R6 = SSP-2, pushed PC/PSR, saved SP, instruction count unchanged) and its final R0-R7, CC, user memory and output are compared with the 0-interrupt run; handler counters = requests raised. non-trivial = schedules in which an interrupt was taken");
+    let mut rep = Report::new("5 user programs (arithmetic loop branching on every CC; LD/ST/LDR/STR/LDI/STI; nested JSR with a stack through R6; PUTS and OUT so that requests land inside OS code; straight line) ending in HALT; two harness devices (vectors x90/x91, level-triggered until taken; the first one's, the keyboard's and the timer's handlers call a service routine through TRAP x40, so requests also arrive while an ISR is inside a trap routine) with priority pairs from {1,4,7}^2 (unequal), the first pair also with ignore_privilege set; schedules: every placement of 0,1,2 (thorough 3 on the shorter programs) request-raise events over (poll index x device) up to the program's length; plus the real keyboard interrupt (IE set, bytes typed by 'another thread' before every pair of polls) and the real TimerDevice with exact n=1..baseline+1. Every run is in lock-step with RefLC3 (gating: taken iff priority > PSR priority and highest wins; entry: supervisor bit, priority, PC = mem[x100+v], R6 = SSP-2, pushed PC/PSR, saved SP, instruction count unchanged) and its final R0-R7, CC, user memory and output are compared with the 0-interrupt run; handler counters = requests raised. non-trivial = schedules in which an interrupt was taken");
     let base = baselines();
     let npr = ctx.pick(3usize, 6usize);
     for prog in 0..PROGRAMS.len() {
-        let polls = base[prog].polls;
+        for (bi, b) in [(prog, ""), (prog + PROGRAMS.len(), "i")] { if let Err((sig, d)) = &base[bi] { rep.acc.violation(sig.clone(), format!("d:{prog}:0:0:{}", if b.is_empty() { "0" } else { b }), d.clone()); } }
+        let polls = base_polls(prog);
+        if polls == 0 { continue; }
         let slots = polls * 2;
         let maxk = if ctx.thorough() && polls <= 100 { 3 } else { 2 };
         for k in 0..=maxk {
             let n = slots.pow(k as u32);
-            let r = sweep(ctx, n * npr as u64, 32, |i, acc| {
-                let (s, pi) = (i / npr as u64, (i % npr as u64) as usize);
+            // priority pairs 0..npr with default flags, plus pair 0 again with ignore_privilege set (index npr)
+            let r = sweep(ctx, n * (npr as u64 + 1), 32, |i, acc| {
+                let (s, pi) = (i / (npr as u64 + 1), (i % (npr as u64 + 1)) as usize);
                 let Some(events) = schedule(s, k, slots) else { return };
-                let (pa, pb) = PRIOS[pi];
+                let ign = pi == npr;
+                let (pa, pb) = PRIOS[if ign { 0 } else { pi }];
                 let v = Variant::Devices { pa, pb, events };
-                acc.evals += 1; acc.traces += 1; acc.count(&format!("schedules_k{k}"), 1);
-                match check(prog, &v) {
+                acc.evals += 1; acc.traces += 1; acc.count(&format!("schedules_k{k}"), 1); if ign { acc.count("schedules_ignore_privilege", 1); }
+                match check_f(prog, &v, ign) {
                     Ok((p, any)) => { acc.transitions += p; if any { acc.nontrivial += 1; } acc.outcomes.insert(mix(prog as u64, p)); }
-                    Err((sig, d)) => acc.violation(sig, format!("d:{prog}:{k}:{s}:{pi}"), d),
+                    Err((sig, d)) => acc.violation(sig, format!("d:{prog}:{k}:{s}:{}", if ign { "i".to_string() } else { pi.to_string() }), d),
                 }
                 acc.sample(i, ctx.seed, 9973, || format!("program {prog} {v:?}"));
             });
@@ -193,7 +202,7 @@ pub fn run_engine(ctx: &Ctx) -> Report {
         rep.absorb(r);
     }
     rep.bound("programs", Json::i(5)); rep.bound("priority_pairs", Json::i(npr as u64)); rep.bound("max_events", Json::s(ctx.pick("2", "3 (programs of <=100 polls), else 2")));
-    rep.bound("polls_per_program", Json::Arr(base.iter().map(|b| Json::i(b.polls)).collect()));
+    rep.bound("polls_per_program", Json::Arr((0..PROGRAMS.len()).map(|i| Json::i(base_polls(i))).collect()));
     rep.require(rep.acc.nontrivial > 5_000, "interrupts were taken in many schedules");
     rep.assume("TimerDevice ticks that arrive while masked are dropped by design, so the timer variant is judged on gating, entry state and transparency only");
     rep
@@ -203,8 +212,10 @@ pub fn replay(case: &str) -> Option<String> {
     let n = |i: usize| -> Option<u64> { p.get(i)?.parse().ok() };
     let prog = n(1)? as usize;
     let v = match *p.first()? {
-        "d" => { let polls = baselines()[prog].polls; let (pa, pb) = PRIOS[n(4)? as usize]; Variant::Devices { pa, pb, events: schedule(n(3)?, n(2)? as usize, polls * 2)? } }
-        "k" => { let polls = baselines()[prog].polls; Variant::Keyboard { appends: [n(2)?, n(3)?].into_iter().filter(|x| *x < polls).collect() } }
+        "d" => { let polls = base_polls(prog); let ign = p.get(4) == Some(&"i"); let (pa, pb) = PRIOS[if ign { 0 } else { n(4)? as usize }];
+            let v = Variant::Devices { pa, pb, events: schedule(n(3)?, n(2)? as usize, polls * 2)? };
+            return check_f(prog, &v, ign).err().map(|(s, d)| format!("[{s}] {d}")); }
+        "k" => { let polls = base_polls(prog); Variant::Keyboard { appends: [n(2)?, n(3)?].into_iter().filter(|x| *x < polls).collect() } }
         "t" => Variant::Timer { n: n(2)? as u32 },
         _ => return None,
     };
